@@ -65,7 +65,7 @@ def main():
             ok = True
             outs = []
             for mod, pkg, test in runs:
-                rc, o = sh("go test -vet=off -count=1 -run '^%s$' %s" % (test, pkg), cwd=os.path.join(vf, mod), timeout=600)
+                rc, o = sh("go test %s -vet=off -count=1 -run '^%s$' %s" % ("-race" if os.environ.get("SEED_RACE") else "", test, pkg), cwd=os.path.join(vf, mod), timeout=900)
                 outs.append(o[-1500:])
                 ok = ok and rc == 0
             return ok, "\n".join(outs)
